@@ -98,6 +98,14 @@ type c07Case struct {
 	Oracle []c07Fail  `json:"oracle"`
 	Feat   []string   `json:"feat"`
 	Notes  []string   `json:"notes,omitempty"`
+	Reader *c07Reader `json:"reader,omitempty"` // driver families of the synchronous reader: history for the model
+}
+
+// history of one readMore call against the dispatcher, in the vocabulary of Model/MuxReader.v
+type c07Reader struct {
+	Acts  []string `json:"acts"`
+	Min   int      `json:"min"`
+	First string   `json:"first"` // what the blocking read returned: "ok" | "eos" | "timeout" | ...
 }
 
 const c07HdrLen = 16
@@ -397,6 +405,7 @@ func c07Pair(queueCap uint32, cb ListenCallback) (client, server *Session) {
 	c07TakeLog()
 	conf := testConf()
 	conf.ShareMemoryBufferCap = 1 << 20
+	conf.InitializeTimeout = 30 * time.Second // the machine may be busy; nothing here depends on it
 	if queueCap > 0 {
 		conf.QueueCap = queueCap
 	}
@@ -742,6 +751,251 @@ func c07Recover(id int, withClose bool) c07Case {
 	return c
 }
 
+
+// ---- the synchronous reader (Stream.readMore) under control -----------------------------------------------
+// props/C07.py hands `go test` a copy of the CURRENT stream.go in which, inside readMore only,
+//     select { case <-s.recvNotifyCh: | case <-s.closeNotifyCh: | case <-timeoutCh: }
+// is rewritten into  switch c07ReadSelect(s, timeoutCh) { case 0: | case 1: | case 2: }  and the entry test
+// `!s.IsOpen()` into `!c07ReadEntryIsOpen(s)` (a rewrite like the instrumenter's mutex rewrites: the bodies of the
+// branches are the source's).  Without a hook both behave exactly like the original.  With a hook the harness
+// decides WHICH ready case the select takes (Go may take any) and what the dispatcher does while the reader
+// is between two of its statements.
+var c07Rd struct {
+	sync.RWMutex
+	sel   func(s *Stream, timeoutCh <-chan time.Time) int // -1: not mine, do the real select
+	entry func(s *Stream)
+}
+
+func c07SetReadHooks(sel func(*Stream, <-chan time.Time) int, entry func(*Stream)) {
+	c07Rd.Lock()
+	c07Rd.sel, c07Rd.entry = sel, entry
+	c07Rd.Unlock()
+}
+
+func c07ReadSelect(s *Stream, timeoutCh <-chan time.Time) int {
+	c07Rd.RLock()
+	h := c07Rd.sel
+	c07Rd.RUnlock()
+	if h != nil {
+		if r := h(s, timeoutCh); r >= 0 {
+			return r
+		}
+	}
+	select {
+	case <-s.recvNotifyCh:
+		return 0
+	case <-s.closeNotifyCh:
+		return 1
+	case <-timeoutCh:
+		return 2
+	}
+}
+
+func c07ReadEntryIsOpen(s *Stream) bool {
+	c07Rd.RLock()
+	h := c07Rd.entry
+	c07Rd.RUnlock()
+	if h != nil {
+		h(s)
+	}
+	return s.IsOpen()
+}
+
+func c07ChanClosed(ch chan struct{}) bool {
+	select {
+	case <-ch:
+		return true
+	default:
+		return false
+	}
+}
+
+// the select of a slow reader: it waits until a case is ready, lets the other notification arrive as well, and then
+// takes the closeNotifyCh case if it is ready (preferClose) or the data case
+func c07SlowSelect(targets map[*Stream]bool, preferClose bool, mu *sync.Mutex) func(*Stream, <-chan time.Time) int {
+	return func(s *Stream, timeoutCh <-chan time.Time) int {
+		mu.Lock()
+		mine := targets[s]
+		mu.Unlock()
+		if !mine {
+			return -1
+		}
+		waited := false
+		for {
+			closed := c07ChanClosed(s.closeNotifyCh)
+			if closed || len(s.recvNotifyCh) > 0 {
+				if !waited {
+					time.Sleep(400 * time.Microsecond)
+					waited = true
+					continue
+				}
+				if closed && (preferClose || len(s.recvNotifyCh) == 0) {
+					return 1
+				}
+				select {
+				case <-s.recvNotifyCh:
+					return 0
+				default:
+				}
+				continue
+			}
+			select {
+			case <-timeoutCh:
+				return 2
+			default:
+			}
+			time.Sleep(20 * time.Microsecond)
+		}
+	}
+}
+
+func c07FallbackSlice(payload []byte) bufferSliceWrapper {
+	data := append([]byte(nil), payload...)
+	sl := newBufferSlice(nil, data, 0, false)
+	sl.writeIndex = len(data)
+	return bufferSliceWrapper{fallbackSlice: sl}
+}
+
+func c07DriverJudge(c *c07Case, p *c07Pipe, sig, what string) {
+	// first thing the reader was told
+	first := "nothing"
+	if len(p.Got) > 0 {
+		first = "ok"
+		if p.Got[0].End {
+			first = "eos"
+		}
+	}
+	if c.Reader != nil {
+		c.Reader.First = first
+	}
+	fails := c07Judge(p, true)
+	for _, f := range fails {
+		if sig != "" && (f.Sig == "C07:end-of-stream-before-flushed-data" || f.Sig == "C07:close-overtakes-fallback-data") {
+			f = c07Fail{sig, fmt.Sprintf("stream %d: %s", p.Stream, what)}
+		}
+		c.Oracle = append(c.Oracle, f)
+	}
+}
+
+// (h) driver at the stream level: the last message and the peer's close are both delivered (exactly the calls the
+// dispatcher makes: handleStreamMessage, halfClose) while the reader is between its moveTo and its select; both
+// channels are ready and the select takes the closeNotifyCh case (or the data case).
+func c07ReaderWait(id int, preferClose bool) c07Case {
+	c := c07Case{ID: id, Kind: "directed-h-reader-woken-by-close-with-data-pending"}
+	client, server := c07Pair(0, nil)
+	defer client.Close()
+	defer server.Close()
+	st := newStream(server, uint32(900000+id))
+	p := &c07Pipe{Stream: st.id, Dir: 0, r: st, Closed: true, CloseVia: "sock"}
+	p.Flushed = []c07Msg{{Stream: st.id, Dir: 0, Seq: 0, Via: "sock"}}
+	c.Pipes = []*c07Pipe{p}
+	msg := c07Payload(st.id, 0, 0, 0) // header only: ONE blocking read of 16 bytes
+	injected := false
+	pick := "BRecv"
+	if preferClose {
+		pick = "BClose"
+	}
+	c07SetReadHooks(func(s *Stream, tmo <-chan time.Time) int {
+		if s != st {
+			return -1
+		}
+		if !injected {
+			injected = true
+			server.handleStreamMessage(st, c07FallbackSlice(msg), streamOpened)
+			st.halfClose()
+		}
+		if preferClose && c07ChanClosed(st.closeNotifyCh) {
+			return 1
+		}
+		select {
+		case <-st.recvNotifyCh:
+			return 0
+		default:
+		}
+		if c07ChanClosed(st.closeNotifyCh) {
+			return 1
+		}
+		return -1
+	}, nil)
+	defer c07SetReadHooks(nil, nil)
+	c.Reader = &c07Reader{Min: c07HdrLen, Acts: []string{"AStep", "AStep", "AStep", fmt.Sprintf("AData %d", c07HdrLen), "ACloseState", "ACloseChan", "APick " + pick, "AStep", "AStep"}}
+	c.Ops = append(c.Ops, fmt.Sprintf("reader of stream %d enters a blocking read on an empty stream; between its moveTo and its select the dispatcher delivers the last message and the peer's close; the select takes %s", st.id, pick))
+	p.drain(300 * time.Millisecond)
+	c07DriverJudge(&c, p, "", "")
+	if !injected {
+		c.Notes = append(c.Notes, "the select hook was never called: stream.go's readMore was not rewritten")
+	}
+	c.Feat = append(c.Feat, "close")
+	return c
+}
+
+// (j) the same two deliveries, but between readMore's moveTo / length read at its ENTRY and its IsOpen() test
+func c07ReaderEntry(id int) c07Case {
+	c := c07Case{ID: id, Kind: "directed-j-reader-entry-test-with-data-pending"}
+	client, server := c07Pair(0, nil)
+	defer client.Close()
+	defer server.Close()
+	st := newStream(server, uint32(900000+id))
+	p := &c07Pipe{Stream: st.id, Dir: 0, r: st, Closed: true, CloseVia: "sock"}
+	p.Flushed = []c07Msg{{Stream: st.id, Dir: 0, Seq: 0, Via: "sock"}}
+	c.Pipes = []*c07Pipe{p}
+	msg := c07Payload(st.id, 0, 0, 0)
+	injected := false
+	c07SetReadHooks(nil, func(s *Stream) {
+		if s == st && !injected {
+			injected = true
+			server.handleStreamMessage(st, c07FallbackSlice(msg), streamOpened)
+			st.halfClose()
+		}
+	})
+	defer c07SetReadHooks(nil, nil)
+	c.Reader = &c07Reader{Min: c07HdrLen, Acts: []string{"AStep", "AStep", fmt.Sprintf("AData %d", c07HdrLen), "ACloseState", "ACloseChan", "AStep", "AStep", "AStep"}}
+	c.Ops = append(c.Ops, fmt.Sprintf("reader of stream %d enters a blocking read on an empty stream; after its moveTo and length read, before its IsOpen() test, the dispatcher delivers the last message and the peer's close", st.id))
+	p.drain(300 * time.Millisecond)
+	c07DriverJudge(&c, p, "C07:end-of-stream-at-read-entry-with-data-pending",
+		"readMore's entry test `recvLen == 0 && !IsOpen()` returned ErrEndOfStream although the last message (delivered before the close) is in pendingData; it is offered only by the next read")
+	if !injected {
+		c.Notes = append(c.Notes, "the entry hook was never called: stream.go's readMore was not rewritten")
+	}
+	c.Feat = append(c.Feat, "close")
+	return c
+}
+
+// (i) real pair: the peer flushes its last message and closes at once while a slow reader is parked in readMore
+func c07FlushThenClose(id int, reps int) c07Case {
+	c := c07Case{ID: id, Kind: "directed-i-flush-then-close-at-once"}
+	client, server := c07Pair(0, nil)
+	var mu sync.Mutex
+	targets := map[*Stream]bool{}
+	c07SetReadHooks(c07SlowSelect(targets, true, &mu), nil)
+	defer c07SetReadHooks(nil, nil)
+	pipes := c07Open(&c, client, server, reps)
+	c07Quiesce(client, server)
+	var wg sync.WaitGroup
+	for _, pq := range pipes {
+		p := pq[0]
+		p.drain(20 * time.Millisecond) // the opening message; the reader is idle now
+		mu.Lock()
+		targets[p.r] = true
+		mu.Unlock()
+		wg.Add(1)
+		go func() { // the slow reader: parked in readMore when the last message and the close arrive
+			defer wg.Done()
+			p.drain(1500 * time.Millisecond)
+		}()
+	}
+	time.Sleep(5 * time.Millisecond)
+	for _, pq := range pipes {
+		p := pq[0]
+		p.write(24)
+		p.closeW()
+	}
+	c.Ops = append(c.Ops, fmt.Sprintf("%d streams: reader parked in a blocking read; the peer flushes its last message and Closes at once; the reader's select takes the closeNotifyCh case when both are ready", reps))
+	wg.Wait()
+	c07Finish(&c, client, server)
+	return c
+}
+
 // ---- (d) a stream that lives entirely on the socket: fallback from its first message, closed through the
 // socket because the queue is full (the hypothesis of the partial theorem; expected in order) -----------
 func c07SocketOnly(id int) c07Case {
@@ -1042,6 +1296,14 @@ func TestVerif_C07(t *testing.T) {
 	o.emit(c07Recover(id, true))
 	id++
 	o.emit(c07CloseEventFirst(id))
+	id++
+	o.emit(c07ReaderWait(id, true))
+	id++
+	o.emit(c07ReaderWait(id, false))
+	id++
+	o.emit(c07ReaderEntry(id))
+	id++
+	o.emit(c07FlushThenClose(id, 6))
 	id++
 	for k := 0; k < n; k++ {
 		if k%3 == 2 {
